@@ -421,6 +421,11 @@ def judge_call(gen, con, target, ident, method, args, result, frames, spec, cnt)
                                                   "unencodable" if any(f.startswith("!") for f in frames) else "sent"))
         if (result == "ValueError" and frames) or len(frames) > 1 or result not in ("OK", "ValueError"):
             return ("frames", "observed %s" % got, got, "ValueError and nothing, or OK and one message")
+        if result == "OK" and target == "zone" and method == "set_target_temperature" and (len(frames) != 1 or frames[0].startswith("!")):
+            # "each accepted call transmits exactly one frame": a zone set-point the wire format cannot express is accepted (no ValueError) and
+            # then nothing reaches the wire - reported under its own key (listed in known_findings.txt)
+            return ("zone-setpoint-accepted-unencodable", "zone.set_target_temperature(%s) returned normally and transmitted nothing (the encoder failed inside the socket's "
+                    "send path); observed %s" % (args[0], got), got, "ValueError and nothing, or exactly one frame")
         if STRICT_UNSPECIFIED and result == "OK" and (len(frames) != 1 or frames[0].startswith("!")):
             return ("frames", "an accepted call transmits exactly one frame; observed %s" % got, got, "exactly one frame")
         return None
